@@ -21,6 +21,15 @@ Definition tie_free (n : nat) (w : nat -> nat -> Z) (zero top : Z) : Prop :=
 Definition two_classes (n : nat) (lab : nat -> nat) : Prop :=
   exists a b, a < n /\ b < n /\ lab a <> lab b.
 
+Lemma tie_free_def :
+  forall (n : nat) (w : nat -> nat -> Z) (zero top : Z),
+    tie_free n w zero top <->
+    (forall p q, p < n -> q < n -> w p q = w q p) /\
+    (forall a b c d, a < n -> b < n -> c < n -> d < n -> a <> b -> c <> d ->
+       w a b = w c d -> (a = c /\ b = d) \/ (a = d /\ b = c)) /\
+    (forall p q, p < n -> q < n -> p <> q -> (zero < w p q < top)%Z).
+Proof. exact (fun n w zero top => iff_refl _). Qed.
+
 Lemma NoDup_app_disjoint {A} (l1 l2 : list A) a : NoDup (l1 ++ l2) -> In a l1 -> In a l2 -> False.
 Proof.
   induction l1 as [|x l1 IH]; intros Hnd H1 H2; [destruct H1|].
